@@ -55,6 +55,18 @@ CHECKS = {
   note="Go map seeds cannot be enumerated for whole-pipeline runs (sampled by repetition); comparators are covered exhaustively over input permutations for the enumerated domains.",
   technique="TLA+ order spec model-checked by TLC; enumerated tie-rich sets replayed on the real comparators under all permutations; repeated-run byte comparison of the pipeline",
   design_ref="DESIGN.md 5/C08"),
+ "C09": dict(
+  category="exploration",
+  text="Two generator specifications enumerate value classes: Session.tla's line grammar (rejected and ignored interactive lines placed anywhere in a history of commands and assignments: lone '>', invalid regexps, unknown commands/options, missing or non-numeric or overflowing values, ranges beyond int64, late failures such as an unopenable output file) and CliGrammar.tla (16 odd-profile classes x 16 commands x ~330 option values). Sessions run through the real interactive loop (panic = outcome nothing accepts; the session must read every line and answer a probe command exactly as a fresh session would), malformed URL queries go to the real web handlers, every command line runs in-process (a process-killing panic on a goroutine is attributed to its case through a progress file) and a sample also through the pprof binary (exit status, 'panic:' on stderr).",
+  note="Model-guided exploration of value classes; not a proof of absence of crashes. Graphviz-dependent commands are expected to fail cleanly.",
+  technique="TLA+ generator grammars enumerated by TLC, replayed on the real interactive loop, web handlers, in-process driver and binary",
+  design_ref="DESIGN.md 5/C09"),
+ "C10": dict(
+  category="model_checking",
+  text="Session.tla models the persistent option store, the pristine profile, the per-command copy that report generation mutates, and the history of effective options; TLC checks PristineNeverChanges, ArgsDoNotPersist and OutputDependsOnlyOn over all histories of length <= 3 and rejects the two broken designs (reports on the shared profile; arguments written to the store). Every history is typed into a real interactive session and each command's output is compared byte-for-byte with the same line in a fresh session that saw only the assignments the specification says are in effect (the real code supplies the report function); web: random sequences and concurrent mixes of requests against the real handlers, each response compared with the same request on a fresh server, /download compared with the loaded profile.",
+  note="Trusted: TLC, the in-process driver wrapper (explicit -functions -flat; other options reset to pristine defaults per run). Web mixes are sampled (seeded), not enumerated.",
+  technique="TLA+ session state machine model-checked by TLC; every behaviour replayed on the real interactive loop and web handlers with fresh-session references",
+  design_ref="DESIGN.md 5/C10"),
 }
 
 NOT_YET = "check not built yet in this session (planned in DESIGN.md section 5)"
